@@ -558,4 +558,65 @@ theorem C17_other_options_irrelevant (o : GOpts) (k : UInt8) (w : GoBytes) (hk :
   have : (o.update k w).get Code.router = o.get Code.router := GOpts.get_update_ne o w (Ne.symm hk)
   simp [Acc.router, getIPs, this]
 
+/-! ## Where the accessors are laxer than the RFC text read to the letter
+
+The theorems above are stated against `Val4.relay` / `Val4.str`, which encode
+what the library does.  Read strictly, two RFC clauses are NOT met; the full
+statements are kept, the part that holds is proved, and each comes with a
+witness that was replayed on the real code (see the report / evidence). -/
+
+/-- RFC 3046 to the letter: a field that is not a sequence of complete tuples
+is malformed, so `RelayAgentInfo` should return nil. -/
+def C17_RelayAgentInfo_strict_full : Prop :=
+  ∀ (o : GOpts) (v : Bytes), o.get Code.relayAgentInfo = some v → Val4.relayStrict v = none →
+    Acc.relayAgentInfo o = none
+
+/-- what holds: nil on every value that is malformed under the DHCP options
+grammar the library documents (pad = 0, end = 255) -/
+theorem C17_RelayAgentInfo_strict_partial (o : GOpts) (v : Bytes)
+    (h : o.get Code.relayAgentInfo = some v) (hs : Val4.relay v = none) :
+    Acc.relayAgentInfo o = none := C17_RelayAgentInfo_bad o v h hs
+
+/-- `01 02 'a' 'b' ff 09 09`: the tuple that starts with code 255 announces 9
+octets and has 1; the accessor returns the partial map {1:"ab"} instead of
+nil (everything after a 255 octet is ignored). Real code: same result. -/
+theorem C17_RelayAgentInfo_strict_counterexample : ¬ C17_RelayAgentInfo_strict_full := by
+  intro hfull
+  have h := hfull (GOpts.empty.update Code.relayAgentInfo (some [1, 2, 97, 98, 255, 9, 9]))
+    [1, 2, 97, 98, 255, 9, 9] (GOpts.get_update_same _ _ _)
+    (by simp [Val4.relayStrict, Val4.subOptionsStrict])
+  simp [Acc.relayAgentInfo, GOpts.get_update_same, relayFromBytes_eq, Val4.relay, Val4.subOptions] at h
+
+/-- RFC 2132 §2 to the letter ("the receiver … MUST be prepared to delete
+trailing nulls"): every string accessor would return the value without its
+trailing NULs. -/
+def C17_strings_rfc2132_full : Prop :=
+  ∀ (o : GOpts) (v : Bytes),
+    (o.get Code.domainName = some v → Acc.domainName o = Val4.stripNul v) ∧
+    (o.get Code.rootPath = some v → Acc.rootPath o = Val4.stripNul v) ∧
+    (o.get Code.classIdentifier = some v → Acc.classIdentifier o = Val4.stripNul v) ∧
+    (o.get Code.message = some v → Acc.message o = Val4.stripNul v)
+
+/-- what holds: on values that do not end in NUL (for HostName,
+BootFileNameOption and TFTPServerName the deletion is done: `C17_HostName_wf` …) -/
+theorem C17_strings_rfc2132_partial (o : GOpts) (v : Bytes) (hv : v.getLast? ≠ some 0) :
+    (o.get Code.domainName = some v → Acc.domainName o = Val4.stripNul v) ∧
+    (o.get Code.rootPath = some v → Acc.rootPath o = Val4.stripNul v) ∧
+    (o.get Code.classIdentifier = some v → Acc.classIdentifier o = Val4.stripNul v) ∧
+    (o.get Code.message = some v → Acc.message o = Val4.stripNul v) := by
+  rw [stripNul_id v hv]
+  refine ⟨?_, ?_, ?_, ?_⟩ <;> intro h
+  · exact getString_wf _ o v h rfl
+  · exact getString_wf _ o v h rfl
+  · exact getString_wf _ o v h rfl
+  · exact getString_wf _ o v h rfl
+
+/-- `'a' 00` in option 15: `DomainName()` returns "a\x00" (2 bytes), not "a".
+Real code: same result. -/
+theorem C17_strings_rfc2132_counterexample : ¬ C17_strings_rfc2132_full := by
+  intro hfull
+  have h := (hfull (GOpts.empty.update Code.domainName (some [97, 0])) [97, 0]).1
+    (GOpts.get_update_same _ _ _)
+  simp [Acc.domainName, getString, GOpts.get_update_same, Val4.stripNul] at h
+
 end Dhcp.V4
